@@ -38,11 +38,6 @@ def load_engine(prop):
 def do_replay(prop, path, out=print):
     with open(path) as fh:
         doc = json.load(fh)
-    hs = (doc.get("boot") or {}).get("hashseed")
-    if hs is not None and os.environ.get("PYTHONHASHSEED") != str(hs):
-        env = dict(os.environ)
-        env["PYTHONHASHSEED"] = env["NSIM_HASHSEED"] = str(hs)
-        os.execve(sys.executable, [sys.executable, os.path.join(fw.VERIF, "check"), prop, "--replay", path], env)
     target = (doc["property"], doc["violation"]["clause"], doc["violation"]["site"])
     sc = {k: v for k, v in doc.items() if k not in ("nsim", "property", "engine", "seed", "run", "tree_id", "python",
                                                   "violation", "digest")}
@@ -70,7 +65,7 @@ def main(argv):
     ap.add_argument("--digests-out")
     args = ap.parse_args(argv)
     faulthandler.enable()
-    faulthandler.dump_traceback_later(3 * 3600, exit=True)
+    faulthandler.dump_traceback_later((10 if args.what == "selftest-sensitivity" else 3) * 3600, exit=True)
     if args.what.startswith("selftest"):
         from . import selftest
         return selftest.main(args)
